@@ -25,6 +25,7 @@ import (
 	"fmt"
 	"io"
 	"math/rand"
+	"os"
 	"runtime"
 	"sort"
 	"strconv"
@@ -361,6 +362,13 @@ func (s *Sys) Message(p int, known bool, status int, items []Item, blks []int) b
 func (s *Sys) Quiesce() { quiesce.Wait(nil) }
 
 func (s *Sys) Close() {
+	// a request whose response never ended still has its executor parked in the loader; cancelling
+	// the request (client side) takes the loader offline and lets the task finish — shutting the
+	// request manager down alone would leave that goroutine parked for good
+	if s.reqCancel != nil {
+		s.reqCancel()
+		quiesce.Wait(nil)
+	}
 	s.cancel()
 	quiesce.Wait(nil)
 }
@@ -541,7 +549,15 @@ func headerDag(hdr string) (int64, int, bool) {
 
 func Run(cases []reg.Case, out *reg.Out) {
 	runtime.GOMAXPROCS(1)
+	cur := ""
+	quiesce.OnStuck = func(dump string) {
+		fmt.Fprintf(os.Stderr, "requestor: case %s does not become quiescent\n%s\n", cur, dump)
+		out.Fail("hang", "the request manager does not become quiescent in case %s (a goroutine stays busy or blocked on a lock / channel send)", cur)
+		out.Finish()
+		os.Exit(3)
+	}
 	for _, c := range cases {
+		cur = c.ID
 		out.BeginCase(c)
 		runCase(c, out)
 	}
